@@ -399,8 +399,8 @@ PROPERTIES["C17"] = {
          "timeout": {"quick": 400, "thorough": 1500},
          "encoded": ["nano::parallel::pool_t::map(elements, chunksize, op, raise) [inline path]", "nano::parallel::pool_t::map(elements, op, raise) [inline path]", "nano::parallel::pool_t::size"]},
         {"engine": "sbv", "harness": "C17_enqueue", "sources": ["C17_enqueue.cpp"],
-         "quick": ["mode=chunks;K=3;maxchunks=4", "mode=chunks;K=2;maxchunks=3", "mode=each;K=3;maxchunks=4", "mode=each;K=4;maxchunks=2"],
-         "thorough": ["mode=chunks;K=%d;maxchunks=%d" % t for t in ((3, 4), (2, 3), (4, 6), (8, 5))] + ["mode=each;K=%d;maxchunks=%d" % t for t in ((3, 4), (4, 2), (2, 6))],
+         "quick": ["mode=chunks;K=3;maxchunks=4", "mode=chunks;K=2;maxchunks=10", "mode=each;K=3;maxchunks=4", "mode=each;K=4;maxchunks=2", "mode=each;K=2;maxchunks=40"],
+         "thorough": ["mode=chunks;K=%d;maxchunks=%d" % t for t in ((3, 4), (2, 10), (4, 6), (8, 5), (2, 24))] + ["mode=each;K=%d;maxchunks=%d" % t for t in ((3, 4), (4, 2), (2, 40), (3, 56), (4, 70))],
          "budget": {"quick": {"deadline_s": 120, "max_paths": 5000, "query_s": 30}, "thorough": {"deadline_s": 900, "max_paths": 50000, "query_s": 60}},
          "encoded": ["nano::parallel::pool_t::map(elements, chunksize, op, raise) [enqueue path: queue_t::enqueue_no_lock, std::packaged_task, std::future, section_t]", "nano::parallel::pool_t::map(elements, op, raise) [enqueue path]",
                      "std::deque<task_t> / std::scoped_lock / condition_variable::notify_all (native on the real objects, single thread)", "section_t::block replaced by the sequentialised barrier (drains the queue with arbitrary worker ids, then the original future loop)"]},
@@ -498,24 +498,26 @@ PROPERTIES["C09"] = {
     "technique": SRE_TECH,
     "explanation": "C09: linear::function_t and gboost::{bias,scale,grads}_function_t through the real datasource -> dataset -> iterator -> loss stack on symbolic float64 cells.",
     "assumptions": SRE_ASSUME + ["cells boxed to [-8,8]; l1,l2 > 0 symbolic when enabled", "losses covered: mse, mae, m-hinge, m-squared-hinge (reference formulas written independently in the harness)"],
-    "bounds": {"samples": "2..3", "inputs": "2 features (scalar / categorical one-hot)", "outputs": "1 (regression) or 3 (classification)", "batch": "1, 2, 100", "scaling": "all 4 modes", "workers": "1..4 (sequentialised)"},
+    "bounds": {"samples": "2..3", "inputs": "2 features (scalar / categorical one-hot)", "outputs": "1 (regression) or 3 (classification)", "batch": "1, 2, 100", "scaling": "all 4 modes", "workers": "1..16 (sequentialised; arbitrary assignment of 2-3 batches to the workers; for more than 7 workers the arbitrary choice is made in one map() call at a time)"},
     "outside": ["thread-count independence under REAL concurrency: the `threads=K` configurations run the real enqueue path of pool_t::map with K workers but sequentialised (the completion barrier drains the queue on the calling thread; worker ids by round-robin / last / reversed / arbitrary symbolic choice): every assignment of batches to workers and the reduction over per-worker accumulators are covered, interleavings and data races are not", "losses with exp/log (logistic, classnll, exponential, savage, tangent, cauchy): see C06", "1e-9 relative floating-point re-association (identities are proved over the reals)"],
     "units": [
         {"engine": "sre", "harness": "C09_linear", "sources": ["C09_linear.cpp"],
          "quick": ["f=rrr;n=3;loss=mse", "f=rrr;n=3;loss=mse;reg=3;miss=1;sc=1", "f=rsr;n=3;loss=mse;sc=2;reg=2;batch=2", "f=rrr;n=3;loss=mse;sc=3;cache=1", "f=rrr;n=2;loss=mae;reg=3;miss=1",
                    "f=rrr;n=3;loss=mae;reg=1;batch=2", "f=rrs;n=1;loss=m-hinge;reg=1", "f=rrs;n=1;loss=m-squared-hinge;reg=2;sc=2", "f=rmr;n=3;loss=mse;miss=4;cache=1",
                    "f=rrr;n=3;loss=mse;reg=3;batch=1;threads=2;sched=0", "f=rrr;n=3;loss=mse;reg=3;batch=1;threads=3;sched=2", "f=rrr;n=3;loss=mae;reg=1;batch=1;threads=3;sched=1", "f=rrr;n=2;loss=mse;batch=1;threads=2;sched=3",
-                   "f=rrr;n=3;loss=mse;sc=3;cache=1;batch=2;threads=2;sched=0"],
+                   "f=rrr;n=3;loss=mse;sc=3;cache=1;batch=2;threads=2;sched=0", "f=rrr;n=3;loss=mse;batch=1;threads=6;sched=3", "f=rrr;n=3;loss=mse;reg=3;batch=1;threads=7;sched=2", "f=rrr;n=3;loss=mse;batch=1;threads=12;sched=2",
+                   "f=rrr;n=3;loss=mae;batch=1;threads=16;sched=0", "f=rrr;n=3;loss=mse;batch=1;threads=5;sched=0", "f=rrr;n=3;loss=mse;batch=1;threads=10;sched=1",
+                   "f=rrr;n=2;loss=mse;batch=1;threads=16;sched=3;arb=1", "f=rrr;n=2;loss=mse;batch=1;threads=13;sched=3;arb=2", "f=rrr;n=2;loss=mse;batch=1;threads=10;sched=3;arb=0"],
          "thorough": ["f=rrr;n=3;loss=mse;sc=%d;reg=%d;miss=%d;batch=%d;cache=%d" % (sc, r, m, b, c) for sc in range(4) for (r, m, b, c) in ((0, 0, 100, 0), (3, 1, 2, 1), (1, 2, 1, 0))] +
                      ["f=rrr;n=3;loss=mae;reg=%d;miss=%d" % (r, m) for r in (0, 3) for m in (0, 1)] + ["f=rrs;n=2;loss=%s;reg=%d" % (l, r) for l in ("m-hinge", "m-squared-hinge") for r in (0, 3)] +
                      ["f=rsr;n=3;loss=mse;sc=2;reg=2;batch=2", "f=rmr;n=3;loss=mse;miss=4;cache=1", "f=srr;n=4;loss=mse;reg=2"] +
-                     ["f=rrr;n=3;loss=%s;reg=3;batch=%d;threads=%d;sched=%d" % (l, b, t, sc) for l in ("mse", "mae") for (b, t, sc) in ((1, 2, 0), (1, 3, 2), (1, 3, 1), (2, 2, 2), (1, 4, 0))] + ["f=rrr;n=3;loss=mse;batch=1;threads=2;sched=3", "f=rrr;n=2;loss=mse;batch=1;threads=3;sched=3"],
+                     ["f=rrr;n=3;loss=%s;reg=3;batch=%d;threads=%d;sched=%d" % (l, b, t, sc) for l in ("mse", "mae") for (b, t, sc) in ((1, 2, 0), (1, 3, 2), (1, 3, 1), (2, 2, 2), (1, 4, 0))] + ["f=rrr;n=3;loss=mse;batch=1;threads=2;sched=3", "f=rrr;n=2;loss=mse;batch=1;threads=3;sched=3"] + ["f=rrr;n=2;loss=mse;batch=1;threads=%d;sched=3" % k for k in range(4, 8)] + ["f=rrr;n=3;loss=mse;batch=1;threads=%d;sched=%d" % (k, sc) for k in range(8, 17) for sc in (0, 1, 2)] + ["f=rrr;n=2;loss=mse;batch=1;threads=%d;sched=3;arb=%d" % (k, a) for k in range(8, 17) for a in (0, 1, 2)] + ["f=rrr;n=3;loss=mse;batch=1;threads=%d;sched=3" % k for k in (5, 6, 7)],
          "budget": {"quick": {"deadline_s": 90, "max_paths": 20000}, "thorough": {"deadline_s": 600, "max_paths": 300000}},
          "encoded": ["nano::linear::function_t::{ctor, do_vgrad}", "nano::linear::predict", "nano::linear::accumulator_t", "nano::sum_reduce", "nano::flatten_iterator_t::{loop, flatten, targets, scaling, batch, cache_*}",
                      "nano::scalar_stats_t::scale", "nano::flatten_loss_t<mse/mae/hinge/squared-hinge>::{value, vgrad}", "nano::dataset_t::{flatten, targets}"]},
         {"engine": "sre", "harness": "C09_gboost", "sources": ["C09_gboost.cpp"],
          "quick": ["n=3;loss=mse", "n=3;loss=mse;sub=1;batch=2", "n=2;loss=mae;batch=1", "n=3;loss=mae;part=bias", "n=3;loss=mae;part=scale;sub=1", "n=3;loss=mse;part=scale;groups=1;unas=2", "n=3;loss=mae;part=scale;groups=1;unas=5", "n=3;loss=mse;part=scale;groups=1;unas=0", "n=3;loss=mse;part=scale;groups=3;unas=0", "n=3;loss=mse;batch=1;threads=3;sched=0", "n=3;loss=mae;part=scale;batch=1;threads=2;sched=2", "n=3;loss=mse;part=grads;batch=1;threads=3;sched=1",
-                   "n=2;loss=mse;part=bias;batch=1;threads=2;sched=3",
+                   "n=2;loss=mse;part=bias;batch=1;threads=2;sched=3", "n=3;loss=mse;part=bias;batch=1;threads=6;sched=3", "n=3;loss=mse;part=scale;batch=1;threads=11;sched=2", "n=3;loss=mse;part=bias;batch=1;threads=7;sched=2",
                    "n=3;loss=mae;part=grads", "n=1;loss=m-hinge;tk=s;part=scale", "n=1;loss=m-hinge;tk=s;part=grads", "n=2;loss=m-hinge;tk=s;part=bias"],
          "thorough": ["n=%d;loss=%s;part=%s;sub=%d;batch=%d" % (n, l, p, s, b) for n in (2, 3) for l in ("mse", "mae") for p in ("bias", "scale", "grads") for (s, b) in ((0, 100), (1, 2))] +
                      ["n=2;loss=m-hinge;tk=s;part=%s" % p for p in ("bias", "scale", "grads")] +
